@@ -40,6 +40,10 @@ type C17Case struct {
 	Closes int    `json:"closes"`
 	// CloseSendErrno: the socket refuses every send made during Close with this errno (0 = sends work)
 	CloseSendErrno int `json:"close_send_errno,omitempty"`
+	// AfterClose: WaitForPendingACKs calls made after Close (a shutdown path that closes first);
+	// ClosedReads: the closed socket refuses every read with EBADF (false: replies already queued stay readable)
+	AfterClose  int  `json:"after_close,omitempty"`
+	ClosedReads bool `json:"closed_reads,omitempty"`
 }
 
 func (c C17Case) Describe() string {
@@ -47,7 +51,7 @@ func (c C17Case) Describe() string {
 	for i, o := range c.Ops {
 		fmt.Fprintf(&b, " %d %s u32=%d ack-errno=%d rules=%x noise=%d eintr=%d\n", i, o.K, o.U32, o.Errno, o.Rules, o.Noise, o.Eintr)
 	}
-	fmt.Fprintf(&b, " then Close x %d (sends during Close fail with errno %d)\n", c.Closes, c.CloseSendErrno)
+	fmt.Fprintf(&b, " then Close x %d (sends during Close fail with errno %d), then WaitForPendingACKs x %d (reads on the closed socket fail: %v)\n", c.Closes, c.CloseSendErrno, c.AfterClose, c.ClosedReads)
 	return b.String()
 }
 
@@ -74,6 +78,10 @@ func genC17(t *rapid.T) C17Case {
 	c.Closes = rapid.SampledFrom([]int{0, 1, 1, 2, 3, 4}).Draw(t, "closes")
 	if rapid.IntRange(0, 4).Draw(t, "closesendfails") == 0 {
 		c.CloseSendErrno = rapid.SampledFrom([]int{int(syscall.ENOBUFS), int(syscall.EPERM), int(syscall.ECONNREFUSED), int(syscall.EBADF)}).Draw(t, "closesenderrno")
+	}
+	if c.Closes > 0 {
+		c.AfterClose = rapid.SampledFrom([]int{0, 0, 1, 2}).Draw(t, "afterclose")
+		c.ClosedReads = rapid.Bool().Draw(t, "closedreads")
 	}
 	return c
 }
@@ -115,6 +123,67 @@ func propC17(c C17Case) error {
 		}
 		return nil
 	}
+	waitAcks := func(what string) error {
+		// the kernel has the ACKs of everything pending ready, in send order
+		k.OnSend = nil
+		k.Queue = nil
+		for _, p := range pending {
+			if p.hard != 0 {
+				// the read fails for good; the ACK itself has not been read and stays with the kernel
+				k.Fail(syscall.Errno(p.hard))
+				break
+			}
+			pushNoise(p.noise)
+			for j := 0; j < p.eintr; j++ {
+				k.Fail(syscall.EINTR)
+			}
+			k.Push(simk.Ack(p.seq, p.errno, uint16(uapi.A("AUDIT_SET"))))
+		}
+		before := k.Recvs
+		err := cl.WaitForPendingACKs()
+		consumed, recvs, wantErrno := 0, 0, 0
+		hardHit := false
+		for pi := range pending {
+			p := &pending[pi]
+			if p.hard != 0 {
+				// the call must fail; nothing is demanded about the error value; the ACK was not consumed
+				recvs++
+				hardHit = true
+				p.hard = 0
+				break
+			}
+			consumed++
+			recvs += 1 + p.noise + p.eintr
+			if p.errno != 0 {
+				wantErrno = p.errno
+				break
+			}
+		}
+		if hardHit {
+			if err == nil {
+				return fmt.Errorf("%s: a receive failed for good before all pending ACKs were read, but the call returned nil", what)
+			}
+			if got := k.Recvs - before; got != recvs {
+				return fmt.Errorf("%s: %d receive calls, want %d", what, got, recvs)
+			}
+			pending = pending[consumed:]
+			waits++
+			hC17.Class("waitacks-with-hard-receive-failure")
+			return nil
+		}
+		switch {
+		case wantErrno != 0 && !errors.Is(err, syscall.Errno(wantErrno)):
+			return fmt.Errorf("%s: returned %v, the first pending ACK with an error carries errno %d (%v)", what, err, wantErrno, syscall.Errno(wantErrno))
+		case wantErrno == 0 && err != nil:
+			return fmt.Errorf("%s: returned %v although all %d pending ACKs carry errno 0 (ACKs consumed by an earlier call must not be waited for again)", what, err, len(pending))
+		}
+		if got := k.Recvs - before; got != recvs {
+			return fmt.Errorf("%s: %d receive calls, want %d (one per ACK consumed incl. %d skipped events; none when nothing is pending)", what, got, recvs, recvs-consumed)
+		}
+		pending = pending[consumed:]
+		waits++
+		return nil
+	}
 	for i, o := range c.Ops {
 		what := fmt.Sprintf("op %d %s", i, o.K)
 		switch o.K {
@@ -141,64 +210,9 @@ func propC17(c C17Case) error {
 				errAmong = true
 			}
 		case "waitacks":
-			// the kernel has the ACKs of everything pending ready, in send order
-			k.OnSend = nil
-			k.Queue = nil
-			for _, p := range pending {
-				if p.hard != 0 {
-					// the read fails for good; the ACK itself has not been read and stays with the kernel
-					k.Fail(syscall.Errno(p.hard))
-					break
-				}
-				pushNoise(p.noise)
-				for j := 0; j < p.eintr; j++ {
-					k.Fail(syscall.EINTR)
-				}
-				k.Push(simk.Ack(p.seq, p.errno, uint16(uapi.A("AUDIT_SET"))))
+			if err := waitAcks(what); err != nil {
+				return err
 			}
-			before := k.Recvs
-			err := cl.WaitForPendingACKs()
-			consumed, recvs, wantErrno := 0, 0, 0
-			hardHit := false
-			for pi := range pending {
-				p := &pending[pi]
-				if p.hard != 0 {
-					// the call must fail; nothing is demanded about the error value; the ACK was not consumed
-					recvs++
-					hardHit = true
-					p.hard = 0
-					break
-				}
-				consumed++
-				recvs += 1 + p.noise + p.eintr
-				if p.errno != 0 {
-					wantErrno = p.errno
-					break
-				}
-			}
-			if hardHit {
-				if err == nil {
-					return fmt.Errorf("%s: a receive failed for good before all pending ACKs were read, but the call returned nil", what)
-				}
-				if got := k.Recvs - before; got != recvs {
-					return fmt.Errorf("%s: %d receive calls, want %d", what, got, recvs)
-				}
-				pending = pending[consumed:]
-				waits++
-				hC17.Class("waitacks-with-hard-receive-failure")
-				continue
-			}
-			switch {
-			case wantErrno != 0 && !errors.Is(err, syscall.Errno(wantErrno)):
-				return fmt.Errorf("%s: returned %v, the first pending ACK with an error carries errno %d (%v)", what, err, wantErrno, syscall.Errno(wantErrno))
-			case wantErrno == 0 && err != nil:
-				return fmt.Errorf("%s: returned %v although all %d pending ACKs carry errno 0 (ACKs consumed by an earlier call must not be waited for again)", what, err, len(pending))
-			}
-			if got := k.Recvs - before; got != recvs {
-				return fmt.Errorf("%s: %d receive calls, want %d (one per ACK consumed incl. %d skipped events; none when nothing is pending)", what, got, recvs, recvs-consumed)
-			}
-			pending = pending[consumed:]
-			waits++
 		case "wait", "setpidwait":
 			if len(pending) > 0 {
 				continue // a synchronous request would meet the pending ACKs first; the property does not say what happens
@@ -290,6 +304,32 @@ func propC17(c C17Case) error {
 		}
 		if k.Recvs != recvBefore {
 			return fmt.Errorf("Close performed %d receives", k.Recvs-recvBefore)
+		}
+	}
+	if c.Closes > 0 && c.AfterClose > 0 {
+		if usedPID && c.CloseSendErrno == 0 {
+			// the request by which Close cleared the PID was itself sent without waiting for its ACK
+			pending = append(pending, pend{seq: k.Seq})
+		}
+		npend := len(pending)
+		for j := 0; j < c.AfterClose; j++ {
+			what := fmt.Sprintf("WaitForPendingACKs call %d after Close with %d ACKs still pending", j+1, len(pending))
+			if c.ClosedReads {
+				k.ClosedReadErr = syscall.EBADF
+				before := k.Recvs
+				err := cl.WaitForPendingACKs()
+				if len(pending) > 0 && err == nil {
+					return fmt.Errorf("%s: returned nil although no ACK could be read from the closed socket (%d receive calls)", what, k.Recvs-before)
+				}
+				if len(pending) == 0 && (err != nil || k.Recvs != before) {
+					return fmt.Errorf("%s: returned %v after %d receive calls, want nil without any receive", what, err, k.Recvs-before)
+				}
+			} else if err := waitAcks(what); err != nil {
+				return err
+			}
+		}
+		if npend > 0 {
+			hC17.Class("history-waitacks-after-close-with-pending")
 		}
 	}
 	if err := checkSaved("after Close"); err != nil {
